@@ -171,7 +171,12 @@ func sendToMembers(ctx context.Context, logger log.Logger, msgc chan interface{}
 }
 
 func askMembers(ctx context.Context, logger log.Logger, bufToNode chan interface{}, numOfResp, reqTpe int, sessionID string) (out chan []interface{}) {
-	out = make(chan []interface{})
+	// capacity 1: the Loop goroutine hands a completed batch over without waiting for the
+	// stage. With an unbuffered channel the Loop blocked until the stage was ready, and a
+	// stage is ready only after the previous one: when a later batch (deals, responses)
+	// completed before an earlier one, the Loop could no longer receive the missing earlier
+	// messages and the session deadlocked until its deadline.
+	out = make(chan []interface{}, 1)
 	go func() {
 		defer fmt.Println("4) Close askMembers Pipe ")
 		defer logger.TimeTrack(time.Now(), "askMembers", map[string]interface{}{"GroupID": sessionID, "Topic": "Grouping"})
